@@ -784,9 +784,11 @@ fn directed(kind: usize, var: u64) -> (Value, Vec<Value>) {
             st(json!(["conn", 1])), st(json!(["ann", 1, 0, 2])),
         ]),
         // the rpc timeout fires while the task is parked in queue_block (and the predecessor's holder times out too)
+        // (peer 1 announces block 1 only: after peer 0 timed out it is not asked for block 0, so its connection goes
+        // down only if the timeout really covers `queue_block`)
         12 => (ninit("timeout-while-parked", 2, 3, Some(t)), vec![
             st(json!(["conn", 0])), st(json!(["ann", 0, 0, 0])),
-            st(json!(["conn", 1])), st(json!(["ann", 1, 0, 1])),
+            st(json!(["conn", 1])), st(json!(["ann", 1, 1, 1])),
             st(json!(["ans", 1, 1, "ok"])),
             st(json!(["timeout"])),
             st(json!(["conn", 2])), st(json!(["ann", 2, 0, 2])),
